@@ -14,4 +14,4 @@ LEVEL_NOTE = ("Trusted: Coq kernel; coq/Analysis/CfgModel.v as a rendering of _c
               "tools/vlib/dalvik_asm.py, the DEX writer and the harness tools/vlib/cfg_common.py.")
 TRUSTED = ["hand-written model coq/Analysis/CfgModel.v", "tools/vlib/dalvik_asm.py, tools/writers/dexwriter.py, tools/vlib/cfg_common.py "
            "(generated methods, observation of MethodAnalysis, statement of the partition rules as oracle)"]
-STREAMS = [C.STREAM(C.per_method(C.check_successors))]
+STREAMS = [C.STREAM(C.per_method(C.check_successors)), C.STREAM_SHIPPED(C.per_method_shipped(C.check_successors))]
